@@ -46,7 +46,7 @@ def check(ctx) -> Result:
                 f"refresh branch of {m.ci.name} no longer assigns {sorted(common - strip(m))} together with the snapshot", construct=m.ci.name)
     an = ctx.ix.module(ANALYZER).classes.get("Analyzer")
     rf_cache.f3_result_fields(ctx, res, an, ctx.func(ANALYZER, "Analyzer.analyze"))
-    res.floor("cache reads", res.stats.get("cache_reads", 0), 8)
+    res.floor("cache reads", res.stats.get("cache_reads", 0), 6)
     res.floor("cache stores", res.stats.get("cache_stores", 0), 7)
     res.floor("refresh observables", res.stats.get("refresh_observables", 0), 10)
     res.floor("result-field reads", res.stats.get("result_field_reads", 0), 4)
